@@ -204,8 +204,11 @@ func (e *Executor) RunTask(ctx context.Context, call *Call) error {
 			}
 		}
 
-		if err := e.mkdir(t); err != nil {
-			e.Logger.Errf(logger.Red, "task: cannot make directory %q: %v\n", t.Dir, err)
+		// A dry run must not touch the file system
+		if !e.Dry {
+			if err := e.mkdir(t); err != nil {
+				e.Logger.Errf(logger.Red, "task: cannot make directory %q: %v\n", t.Dir, err)
+			}
 		}
 
 		var deferredExitCode uint8
